@@ -1,9 +1,49 @@
 """C12 - verify accepts exactly what decrypt accepts; writes nothing; inputs stay intact."""
-import json
+import json, os
 import wv
 from props import filelevel as fl
 PID = "C12"
 ONLY = ["verification and decryption disagree", "verification wrote output", "modified its input", "did not return normally", "non-seekable output"]
+
+
+def prompt_cases(res, tier):
+    """The same claim through the program's other entry point, the prompt mode with its default output names:
+    verify and decrypt of the same file agree and no operation changes its input - for input names up to the
+    longest the prompt accepts (127 characters), where "<input>.wdec" / "<input>.wenc" must not collapse onto the input."""
+    import hashlib, shutil, subprocess, tempfile
+    from props import c17
+    exe = c17.binary()
+    root = tempfile.mkdtemp(prefix="wvc12.", dir="/var/tmp")
+    n = 0
+    try:
+        t = c17.make_template(exe, root)
+        enc = open(os.path.join(t, "E.wenc"), "rb").read()
+        for k in ((20, 122, 127) if tier == "quick" else (1, 20, 100, 121, 122, 123, 124, 126, 127)):
+            d = os.path.join(root, "p%d" % k); os.makedirs(d)
+            name = ("N" * k)
+            verdict = {}
+            for op, content, lines in (("v", enc, ["v", name, c17.K]), ("d", enc, ["d", name, "n", c17.K]), ("e", c17.PLAIN, ["e", name, "y", "2", "1", "seedword"])):
+                open(os.path.join(d, name), "wb").write(content)
+                env = dict(os.environ); env.update(wv.ASAN_ENV)
+                try:
+                    r = subprocess.run([exe], cwd=d, input=("\n".join(lines) + "\n").encode(), stdout=subprocess.PIPE, stderr=subprocess.STDOUT, timeout=30, env=env)
+                    rc, out = r.returncode, r.stdout[-4000:]
+                except subprocess.TimeoutExpired:
+                    rc, out = 124, b"(timeout)"
+                n += 1
+                after = open(os.path.join(d, name), "rb").read() if os.path.exists(os.path.join(d, name)) else None
+                if b"AddressSanitizer" in out or b"runtime error:" in out or rc < 0:
+                    res.violation("prompt mode, operation %s on an input name of %d characters: crashed (rc=%s) %s" % (op, k, rc, out[-200:].decode(errors="replace")), {"prompt": lines})
+                elif after != content:
+                    res.violation("prompt mode, operation %s on an input name of %d characters modified its input file (%d -> %s bytes)" % (op, k, len(content), "no file" if after is None else len(after)), {"prompt": lines})
+                verdict[op] = rc
+                for f in os.listdir(d):
+                    os.unlink(os.path.join(d, f))
+            if (verdict.get("v") == 0) != (verdict.get("d") == 0):
+                res.violation("prompt mode, input name of %d characters: verify exit %s but decrypt exit %s on the same file and key" % (k, verdict.get("v"), verdict.get("d")), {"prompt_name_len": k})
+    finally:
+        shutil.rmtree(root, ignore_errors=True)
+    res.cov["prompt_mode_operations"] = n
 
 
 def run(tier, replay):
@@ -18,6 +58,8 @@ def run(tier, replay):
                    [["garbage", T, 6000] for T in (1, 2, 4, 16)] + [["crash", 2, n, n % 5, n % 3, u] for n in (0, 20, 40, 70) for u in (0, 1)]
         events = fl.collect(res, PID, jobs)
     st, nfull = fl.judge(res, PID, events, only=ONLY)
+    if not replay:
+        prompt_cases(res, tier)
     ops = [e for e in events if e["e"] == "op"]
     acc = sum(1 for e in ops if e["dec_ret"] == 1)
     keys = set((e["cls"], e["kind"], e["T"], len(e["C"]), e["ver_ret"]) for e in ops)
